@@ -20,7 +20,9 @@ use rand::Rng;
 use serde_json::json;
 
 #[derive(Debug, Clone, Copy, PartialEq)]
-enum Ra { Absent, Authentic, SigFlip, OtherSession, OtherItems, UntrustedCa, NoX5, GarbageX5, AttachedPayload, WrongAlg, OtherKey, ImpostorThenGenuine, GenuineThenCa, OtherSessionAttached, P384ThenSelfMade }
+enum Ra { Absent, Authentic, SigFlip, OtherSession, OtherItems, UntrustedCa, NoX5, GarbageX5, AttachedPayload, WrongAlg, OtherKey, ImpostorThenGenuine, GenuineThenCa, OtherSessionAttached, P384ThenSelfMade,
+    /// the previous document request's readerAuth copied onto OTHER bytes that decode to the same ItemsRequest
+    CopiedAuthReencoded }
 
 pub fn items_request_bytes(rng: &mut StdRng, noncanonical: bool) -> Vec<u8> {
     let ids = ["family_name", "given_name", "age_over_18", "portrait"];
@@ -89,14 +91,14 @@ pub fn run(ctx: &mut Ctx) {
             ("iaca-then-right-reader-ca-as-iaca", registry(vec![(other_pki.reader_ca.clone(), TrustPurpose::ReaderCa), (pki.reader_ca.clone(), TrustPurpose::Iaca)])),
             ("expired-twin-only", registry(vec![(pki::root_cert_valid(&pki.reader_ca_key, "CN=Test Reader CA,C=US", 71, 1_000_000_000, 1_100_000_000), TrustPurpose::ReaderCa)])),
         ];
-        let kinds = [Ra::Absent, Ra::Authentic, Ra::SigFlip, Ra::OtherSession, Ra::OtherItems, Ra::UntrustedCa, Ra::NoX5, Ra::GarbageX5, Ra::AttachedPayload, Ra::WrongAlg, Ra::OtherKey, Ra::ImpostorThenGenuine, Ra::GenuineThenCa, Ra::OtherSessionAttached, Ra::P384ThenSelfMade];
+        let kinds = [Ra::Absent, Ra::Authentic, Ra::SigFlip, Ra::OtherSession, Ra::OtherItems, Ra::UntrustedCa, Ra::NoX5, Ra::GarbageX5, Ra::AttachedPayload, Ra::WrongAlg, Ra::OtherKey, Ra::ImpostorThenGenuine, Ra::GenuineThenCa, Ra::OtherSessionAttached, Ra::P384ThenSelfMade, Ra::CopiedAuthReencoded];
         let ncases = if ctx.thorough { 120 } else { 40 };
         // fixed patterns of several document requests (the verdict is over the WHOLE message)
         let patterns: Vec<Vec<Ra>> = vec![
             vec![Ra::Absent, Ra::Authentic], vec![Ra::Authentic, Ra::Absent], vec![Ra::Absent, Ra::Absent, Ra::Authentic], vec![Ra::Authentic, Ra::Authentic],
             vec![Ra::NoX5, Ra::Authentic], vec![Ra::GarbageX5, Ra::Authentic], vec![Ra::SigFlip, Ra::Authentic], vec![Ra::Authentic, Ra::SigFlip],
             vec![Ra::UntrustedCa, Ra::Authentic], vec![Ra::Authentic, Ra::OtherSession], vec![Ra::Authentic, Ra::Authentic, Ra::OtherItems], vec![Ra::AttachedPayload, Ra::Authentic],
-            vec![Ra::Authentic, Ra::ImpostorThenGenuine], vec![Ra::OtherKey, Ra::Authentic, Ra::Authentic], vec![Ra::P384ThenSelfMade], vec![Ra::Authentic, Ra::P384ThenSelfMade],
+            vec![Ra::Authentic, Ra::ImpostorThenGenuine], vec![Ra::Authentic, Ra::CopiedAuthReencoded], vec![Ra::Authentic, Ra::CopiedAuthReencoded, Ra::Authentic], vec![Ra::CopiedAuthReencoded, Ra::Authentic], vec![Ra::OtherKey, Ra::Authentic, Ra::Authentic], vec![Ra::P384ThenSelfMade], vec![Ra::Authentic, Ra::P384ThenSelfMade],
         ];
         // … and the single-request kinds that matter under each of the registries above (index into `regs`)
         let mut patterns: Vec<(usize, Vec<Ra>)> = patterns.into_iter().map(|p| (0, p)).collect();
@@ -109,6 +111,7 @@ pub fn run(ctx: &mut Ctx) {
             let ndr = match pattern { Some(p) => p.len(), None => if ci < kinds.len() { 1 } else { rng.gen_range(1..=3) } };
             let (reg_name, reg) = &regs[if let Some(p) = pattern_full { p.0 } else if ci < kinds.len() * 2 { ci % 2 * (ci / kinds.len()) } else { rng.gen_range(0..regs.len()) }];
             let mut doc_requests = vec![];
+            let mut prev: Option<(Vec<u8>, Option<Value>)> = None;
             let mut model_reqs = vec![];
             let mut desc_kinds = vec![];
             for di in 0..ndr {
@@ -116,11 +119,19 @@ pub fn run(ctx: &mut Ctx) {
                            else if rng.gen_bool(0.6) { Ra::Authentic } else { kinds[rng.gen_range(0..kinds.len())] };
                 desc_kinds.push(format!("{kind:?}"));
                 let noncanon = rng.gen_bool(0.3);
-                let items = items_request_bytes(&mut rng, noncanon);
+                let mut items = items_request_bytes(&mut rng, noncanon);
+                if matches!(kind, Ra::CopiedAuthReencoded) {
+                    if let Some((pi, _)) = &prev {
+                        // the same item in another encoding: the canonical one if the original was not, else a one-byte map head
+                        let canon = from_bytes(pi).map(|v| to_bytes(&v)).unwrap_or_default();
+                        items = if canon != *pi { canon } else if pi.first() == Some(&0xa2) { [vec![0xb8, 0x02], pi[1..].to_vec()].concat() } else { pi.clone() };
+                    }
+                }
                 let payload = rab(&de, &erk, &items);
                 let reader_der = pki.reader.to_der().unwrap();
                 let ra: Option<Value> = match kind {
                     Ra::Absent => None,
+                    Ra::CopiedAuthReencoded => prev.as_ref().and_then(|(_, r)| r.clone()),
                     Ra::Authentic => Some(reader_auth(&pki.reader_key, Some(reader_der), None, -7, &payload, false)),
                     Ra::SigFlip => { let mut v = reader_auth(&pki.reader_key, Some(reader_der), None, -7, &payload, false);
                         if let Value::Array(a) = &mut v { if let Value::Bytes(s) = &mut a[3] { let i = rng.gen_range(0..s.len()); s[i] ^= 1 << rng.gen_range(0..8); } } Some(v) }
@@ -149,6 +160,7 @@ pub fn run(ctx: &mut Ctx) {
                     // another session's authentic readerAuth replayed with THAT session's ReaderAuthenticationBytes attached
                     Ra::OtherSessionAttached => Some(reader_auth(&pki.reader_key, Some(reader_der), None, -7, &rab(&de2, &erk2, &items), true)),
                 };
+                prev = Some((items.clone(), ra.clone()));
                 let mut dr = vec![(text("itemsRequest"), Value::Tag(24, Box::new(bytes(&items))))];
                 if let Some(r) = &ra { dr.push((text("readerAuth"), r.clone())); }
                 doc_requests.push(Value::Map(dr));
